@@ -54,6 +54,9 @@ func gen(r *sim.Rng, tier string) *sim.Case {
 		}
 	case 1:
 		p["setlen"] = r.Range(1, 40)
+		if r.Pct(5) {
+			p["setlen"] = r.Range(41, 200)
+		}
 		if r.Pct(30) {
 			p["setlen"] = []int{1, 2, 4, 8, 16, 32}[r.N(6)]
 		}
@@ -73,10 +76,16 @@ func gen(r *sim.Rng, tier string) *sim.Case {
 		}
 	case 3:
 		nr := r.Range(1, 4)
+		if r.Pct(5) {
+			nr = r.Range(5, 9)
+		}
 		for i := 0; i < nr; i++ {
 			period := r.Range(1, 200)
 			if r.Pct(15) {
 				period = r.Range(1, 5000)
+			}
+			if r.Pct(2) {
+				period = r.Range(10000, 60000)
 			}
 			if i > 0 && r.Pct(25) {
 				period = c.Ops[i-1].K // equal periods
@@ -90,6 +99,9 @@ func gen(r *sim.Rng, tier string) *sim.Case {
 		p["T"] = r.Range(10, 450)
 		if r.Pct(15) {
 			p["T"] = r.Range(450, 6000)
+		}
+		if r.Pct(2) {
+			p["T"] = r.Range(20000, 120000)
 		}
 		p["id"] = r.N(1 << 20)
 	}
@@ -275,6 +287,35 @@ var runePools = [][]rune{
 	[]rune("aé世𝄞bü界😀cñ語🙂dßあ🚀eøい𐍈fåう🎉gçえ🧪hîお🔥iôかλjûきπ"),
 	[]rune("世界語あいうえおかきくけこさしすせそたちつてとなにぬねのはひふへほまみむめも"),
 	[]rune("𝄞😀🙂🚀𐍈🎉🧪🔥🌍🌎🌏🎈🎁🎂🎃🎄🎅🎆🎇🎐🎑🎒🎓🎠🎡🎢🎣🎤🎥🎦🎧🎨🎩🎪🎫🎬🎭🎮🎯🎰"),
+}
+
+func init() {
+	// extend every pool to 200 distinct runes of its width class
+	ext := [][2]rune{{0x21, 0x7e}, {0xa1, 0x24f}, {0x4e00, 0x4eff}, {0x1f300, 0x1f3ff}}
+	for i := range runePools {
+		seen := map[rune]bool{}
+		for _, ch := range runePools[i] {
+			seen[ch] = true
+		}
+		lo, hi := ext[i][0], ext[i][1]
+		if i == 1 { // mixed widths: draw from all classes
+			for j := 0; len(runePools[i]) < 200; j++ {
+				e := ext[j%4]
+				ch := e[0] + rune(j/4)%(e[1]-e[0]+1)
+				if !seen[ch] {
+					seen[ch] = true
+					runePools[i] = append(runePools[i], ch)
+				}
+			}
+			continue
+		}
+		for ch := lo; ch <= hi && len(runePools[i]) < 200; ch++ {
+			if !seen[ch] {
+				seen[ch] = true
+				runePools[i] = append(runePools[i], ch)
+			}
+		}
+	}
 }
 
 func strGen(c *sim.Case, r *sim.Rng, out *sim.WorkerOut, dg *engc.Digest) (*sim.Violation, bool) {
@@ -465,7 +506,7 @@ func extra(out *sim.WorkerOut) []*sim.Case {
 	var bad []*sim.Case
 	cases := 0
 	reported := map[string]bool{}
-	for l := 1; l <= 13; l++ {
+	for l := 1; l <= 26; l++ {
 		for _, pos := range []int{0, l / 2, l - 1} {
 			for b := 0; b < 256; b++ {
 				s := make([]byte, l)
